@@ -136,6 +136,12 @@ class Repo:
         trace, so a tree that does it is refused (exit 2) rather than analysed."""
         for mod in self.modules.values():
             for n in ast.walk(mod.tree):
+                if isinstance(n, ast.ClassDef):
+                    hooks = [b.name for b in n.body if isinstance(b, (ast.FunctionDef, ast.AsyncFunctionDef)) and b.name in (
+                        "__getattr__", "__getattribute__", "__setattr__", "__delattr__", "__init_subclass__", "__set_name__", "__get__", "__set__", "__del__")]
+                    if hooks or any(k.arg == "metaclass" for k in n.keywords):
+                        what = hooks[0] if hooks else "a metaclass"
+                        raise AnalysisError(f"{mod.relpath}:{n.lineno}: class {n.name} defines {what}; attribute and creation hooks are not modelled")
                 tg: list[ast.expr] = []
                 if isinstance(n, ast.Assign):
                     tg = list(n.targets)
